@@ -132,9 +132,9 @@ example : vp9ReadBitsUnsafe [0xA5, 0x3C, 0xF0] 5 13 = .ok (0b1010011110011, 18) 
 theorem c12_header_nopanic (buf : Bytes) : vp9HeaderUnmarshal buf ≠ .panic :=
   Proofs.VP9Bits.header_nopanic buf
 
-/-- what is NOT proved: the full `c12_header` (parse (encode hd) = hd for every profile, colour
-    configuration and size 1 … 65535); it is checked by correspondence kind `c12.hdr` against the
-    independent bit writer, and its consequence for the payloader is the hypothesis of `c12_rt_partial`. -/
+/-- the full `c12_header` statement (parse (encode hd) = hd for every profile, colour configuration
+    and size); PROVED as `Rtp.Props.C12.c12_header` in Rtp/Props/C12Header.lean, which also closes
+    the hypothesis of `c12_rt_partial` (`c12_rt : c12_rt_full`). -/
 def c12_header_full : Prop :=
   ∀ (h : Spec.Vp9Bits.Hdr) (wire : Bytes), h.WF = true → C12.startsWith h wire = true →
     C12.hdr (some h) wire (C12.obsHdr wire) = true
